@@ -58,14 +58,16 @@ def probe_script(segs, cpus, tps):
         rec.append(m)
         orig(m)
     c.set_current_memory_usage = recorder
-    n = 0
+    script = []
     while not c.is_completed():
+        del rec[:]
+        before = c.get_current_memory_usage()
         c.tick()
-        n += 1
-        if n > 10 ** 6:
+        # the demand of the tick is the first value the container sets in it (a completing container sets a
+        # second one, 0.0, when it marks itself completed); a tick without any update keeps the old value
+        script.append(rec[0] if rec else before)
+        if len(script) > 10 ** 6:
             raise RuntimeError('probe does not terminate')
-    script = rec[:-1]          # the last call is _mark_completed's 0.0
-    assert len(script) == n, (len(script), n)
     _probe_cache[key] = script
     return script
 
